@@ -324,11 +324,33 @@ def h_produce(ctx):
     return Outcome(f"{kk}:produced:{'ok' if not vs else 'bad'}", vs, nontrivial=(sname, family, kty, path, kk, kv, pos, as_callable, picked.get("n"), th.get("kid")))
 
 
+def _members_are_themselves(ks, jwks, what):
+    """Every member of the set is known under its own thumbprint, found under it, and exported with its own material."""
+    vs = []
+    tps = [rjwk.thumbprint(rjwk.public_of(j)) for j in jwks]
+    kids = [k.kid for k in ks.keys]
+    if kids != tps:
+        vs.append(viol("members of a key set are not known under their own thumbprints", f"{what}: kids {kids}, thumbprints {tps}"))
+    d = call(lambda: ks.as_dict())
+    if not d.ok:
+        vs.append(viol("export of a key set fails", f"{what}: {d.exc!r}"))
+    else:
+        for j, e, tp in zip(jwks, d.value["keys"], tps):
+            pub = rjwk.public_of(j)
+            if any(e.get(m) != v for m, v in pub.items()) or e.get("kid") != tp:
+                vs.append(viol("a key set export lists a member with another member's material or kid", f"{what}: entry kid {e.get('kid')!r} for the key with thumbprint {tp}"))
+    for j, tp, k in zip(jwks, tps, ks.keys):
+        g = call(ks.get_by_kid, tp)
+        if not g.ok or g.value is not k:
+            vs.append(viol("a member of a key set is not found under its own kid", f"{what}: {tp}: {g.exc!r}"))
+    return vs
+
+
 def h_sets(ctx):
     """import_key_set(as_dict()) preserves every key; every member has a kid; ECDH-1PU sender set with skid."""
     from joserfc.jwk import KeySet
     sname = ctx.choose("set", list(SETS))
-    mode = ctx.choose("mode", ["roundtrip-private", "roundtrip-public", "construct-without-kid", "import-jwks-without-kids", "generate", "1pu-skid"])
+    mode = ctx.choose("mode", ["roundtrip-private", "roundtrip-public", "construct-without-kid", "construct-with-one-parameters-dict", "import-jwks-without-kids", "generate", "1pu-skid"])
     ms = members(sname)
     vs = []
     if mode.startswith("roundtrip"):
@@ -377,12 +399,24 @@ def h_sets(ctx):
                     vs.append(viol("a member of an imported JWK Set is not found under its thumbprint kid", f"{sname}: {want}"))
             if len(call(lambda: ks.as_dict()["keys"]).value or []) != len(ms):
                 vs.append(viol("import then export of a JWK Set does not preserve every key", f"{sname}"))
+    elif mode == "construct-with-one-parameters-dict":
+        # the members come from their native encodings and the caller passes the one parameters dict it has to each import
+        shared = ctx.choose("parameters", [{"use": "sig"}, {"key_ops": ["sign", "verify"], "x5t": "t"}])
+        given = copy.deepcopy(shared)
+        keys = [A.jkey(m["jwk"], "pem" if m["jwk"]["kty"] != "oct" else "bytes", params=shared) for m in ms]
+        ks = KeySet(keys)
+        vs += _members_are_themselves(ks, [m["jwk"] for m in ms], f"{sname}, members imported with one parameters dict {given}")
+        if shared != given:
+            vs.append(viol("building keys and a key set alters the caller's parameters dict", f"{sname}: {given} -> {shared}"))
     elif mode == "generate":
         for kt, arg in (("oct", 128), ("EC", "P-256"), ("OKP", "Ed25519")):
-            ks = KeySet.generate_key_set(kt, arg, count=3)
-            kids = [k.kid for k in ks.keys]
-            if None in kids or len(set(kids)) != 3:
-                vs.append(viol("generated key set has missing or duplicate kids", f"{kt}: {kids}"))
+            for params in (None, {"use": "sig"}, {"key_ops": ["sign", "verify"]}):
+                ks = KeySet.generate_key_set(kt, arg, parameters=params, count=3)
+                kids = [k.kid for k in ks.keys]
+                if None in kids or len(set(kids)) != 3:
+                    vs.append(viol("generated key set has missing or duplicate kids", f"{kt}: {kids}"))
+                jwks = [{"kty": "oct", "k": b64.enc(k.raw_value)} if kt == "oct" else rjwk.export(k.raw_value, private=True) for k in ks.keys]
+                vs += _members_are_themselves(ks, jwks, f"generated {kt} set, parameters {params}")
     else:
         scen.register_drafts()
         if sname not in ("two-ec", "x-and-rsa"):
@@ -541,7 +575,7 @@ class SetModel:
     MENU = ["sign-nokid-pick0", "sign-nokid-pick-last", "verify-member0", "verify-last", "lookup-all", "lookup-removed", "export-public",
             "export-then-the-caller-edits-the-document",
             "rotate-first-in-place", "rotate-last-in-place", "append-new", "append-untouched-with-own-kid", "remove-first", "encrypt-nokid-pick0",
-            "decrypt-last"]
+            "decrypt-last", "go-on-with-copy.deepcopy-of-the-set", "go-on-with-pickle-of-the-set"]
 
     def __init__(self, kind):
         self.kind = kind
@@ -634,6 +668,12 @@ class SetModel:
                 c = call(ks.get_by_kid, m["kid"])
                 if c.ok:
                     out["viol"].append(("lookup by kid returns a key that was removed from the set", m["kid"]))
+        elif op.startswith("go-on-with-"):
+            # the application goes on with a copy of its key set (copy / pickle protocols; a worker process gets a pickle)
+            from .common import handed_over
+            cp = handed_over(ks, op[len("go-on-with-"):-len("-of-the-set")])
+            if cp is not None:
+                st["ks"] = cp
         elif op == "export-then-the-caller-edits-the-document":
             # the exported JWK Set is the caller's: it strips private members and relabels entries to publish it
             for private in (None, False):
